@@ -83,6 +83,14 @@ package gocvss40
 
 //@ func mod(base, modified) pure
 
+// ---- buffer helpers of Vector: they write only through b (C14 frame) ----
+
+//@ func mandatory(b, pre, v)
+//@   modifies b
+
+//@ func notMandatory(b, pre, v)
+//@   modifies b
+
 // ---- Vector / lenVec (C02, C08, C17): the serialiser writes the canonical form in one allocation ----
 
 //@ func lenVec(cvss40)
